@@ -276,3 +276,137 @@ def request_variants():
     out.append(('GET', '/', 'HTTP/1.1', [], b'HEAD'))
     out.append(('POST', '/', 'HTTP/1.1', [], bytes(range(256))))
     return out
+
+
+# ====================================================================== second audit pass
+# Classes a well-meant feature or clean-up of the response code would hinge on: a RELATION inside the input (two fields equal, one a prefix
+# of the other, differing only in a character that folds; a multi-byte character across ANY small byte offset; a length that is a multiple
+# of a chunk size; a status together with a range shape) or between two calls (history).
+
+def every_offset_strings(quick=True, scale=1):
+    """texts in which, for EVERY byte offset N below the text's length, a multi-byte character straddles N in at least one of them
+    (2-, 3- and 4-byte characters behind every possible ASCII prefix length): a cut, cap or window at any fixed byte offset hits one"""
+    n = 1 if quick else 4
+    out = []
+    for ch, reps in (('é', 200), ('€', 140), ('😀', 100)):
+        w = len(ch.encode())
+        for pre in range(w):
+            out.append(('%d-byte chars from offset %d' % (w, pre), 'a' * pre + ch * (reps * n * scale)))
+    return out
+
+
+def every_offset_bodies(quick):
+    """bodies (valid UTF-8, one line) in which a multi-byte character straddles every byte offset up to 4 KiB + (chunks of 512, 1024, 4096 ...)"""
+    out = []
+    for ch, reps in (('é', 2200), ('€', 1450), ('😀', 1100)):
+        w = len(ch.encode())
+        for pre in range(w):
+            out.append(('multi-byte body, %d-byte chars from offset %d' % (w, pre), (b'a' * pre) + ch.encode() * (reps if quick else reps * 8)))
+    return out
+
+
+def chunk_multiple_sizes(quick):
+    """body lengths that are a multiple of a usual chunk size, and one off: the remainder of a chunked copy is empty / one byte / all but one byte"""
+    ns = []
+    for c in ([512, 1024, 2048, 4096, 16384] if quick else [64, 128, 256, 512, 1000, 1024, 1460, 2048, 4096, 16384, 32768]):
+        ns += [c - 1, c, c + 1]
+    if not quick: ns += [2 * 4096 - 1, 2 * 4096 + 1, 3 * 4096, 3 * 4096 + 1, 5 * 1024, 7 * 512]
+    else: ns += [3 * 512, 3 * 1024, 3 * 4096]
+    return ns
+
+
+# characters that fold onto an ASCII letter under Unicode case mapping: U+0131 and U+017F upper-case to I and S, U+212A lower-cases to k, U+0130 to i + U+0307
+FOLD_SINGLE_CONTENT_TYPES = ['multıpart/byteranges; boundary=String_separator', 'multipart/byterangeſ; boundary=String_separator', 'MULTIPART/BYTERANGEſ; boundary=String_separator',
+                             'MULTıPART/BYTERANGES', 'multİpart/byteranges; boundary=String_separator', 'multipart/byterange\u1e61', 'multipart/byteranges\u0307', 'multipart∕byteranges; boundary=String_separator',
+                             'multipart/byteranges'[:-1] + 'ſ', 'ｍultipart/byteranges; boundary=String_separator', 'multipart/bytera­nges; boundary=String_separator',
+                             'multi​part/byteranges', 'text/plaın', 'TEXT/PLAİN', 'application/Kml', 'applıcatıon/octet-ſtream', 'APPLICATION/OCTET-STREAM', 'application/octet-stream; x']
+FOLD_PART_CONTENT_TYPES = ['text/plaın', 'TEXT/PLAİN', 'ſtring', 'ſtring_ſeparator', 'STRıNG_SEPARATOR', 'string_separatoṙ', 'multıpart/byteranges; boundary=zz', 'content-type: x', 'Content-Typė',
+                           'Content-Ranɡe', 'ﬁle/ﬂat', 'straße/STRASSE', 'ẞ']
+FOLD_METHODS = ['optıons', 'OPTıONS', 'OPTIONſ', 'optionſ', 'HEAḊ', 'head​', 'ΗΕΑD', 'НЕАD', 'HEAD\x00', 'HEAD\r', 'HEAD/1.1', 'OPTIONS *', 'Options', 'oPTIONS']
+
+
+def folding_header_lists():
+    """two or more headers whose names (or values) are equal only after case folding, normalisation or compatibility mapping: the same key twice for a tolerant reader"""
+    return [('fold names sharp-s', [('Straße', '1'), ('STRASSE', '2'), ('Strasse', '3'), ('STRAẞE', '4'), ('straſſe', '5')]),
+            ('fold names sigma', [('ΣΑΣ', 'a'), ('σας', 'b'), ('σασ', 'c')]),
+            ('fold names dotless', [('ı', '1'), ('I', '2'), ('i', '3'), ('İ', '4'), ('i̇', '5')]),
+            ('fold names kelvin', [('K', '1'), ('k', '2'), ('K', '3'), ('Keep-Alive', 'a'), ('Keep-Alive', 'b'), ('keep-alive', 'c')]),
+            ('fold names nfc', [('é', '1'), ('é', '2'), ('É', '3'), ('É', '4')]),
+            ('fold names nfkc', [('ﬁle', '1'), ('file', '2'), ('Ｈost', '3'), ('Host', '4'), ('Ω', '5'), ('Ω', '6'), ('Å', '7'), ('Å', '8'), ('Å', '9')]),
+            ('fold names titlecase', [('ǆ', '1'), ('ǅ', '2'), ('Ǆ', '3'), ('dž', '4')]),
+            ('fold values', [('X-A', 'é'), ('X-A', 'é'), ('X-B', 'ß'), ('X-B', 'ss'), ('X-B', 'SS'), ('X-C', 'K'), ('X-C', 'K'), ('X-D', '가'), ('X-D', '가'),
+                             ('X-E', '①'), ('X-E', '1'), ('X-F', 'ǰ'), ('X-F', 'J̌'), ('X-G', 'ŉ'), ('X-G', 'ʼN'), ('X-H', 'ΐ'), ('X-H', 'ΐ')]),
+            ('fold set-cookie', [('Set-Cookie', 'a=1'), ('set-cookie', 'a=1'), ('SET-COOKIE', 'a=1'), ('Set-Cookıe', 'a=1'), ('Set-CooKie', 'a=1')]),
+            ('fold host', [('Host', 'localhost'), ('HOST', 'LOCALHOST'), ('host', 'localhoſt'), ('Hoſt', 'localhost')])]
+
+
+# characters whose low byte (of the code point) is an ASCII character the format gives meaning to: a table indexed by `c as u8`, or a comparison after `as u8`, mistakes them
+LOW_BYTE_CHARS = ['Ċ', 'č', 'Ġ', 'ĺ', 'ĭ', 'ĉ', 'Ģ', 'Ļ', 'Ľ', 'į', 'Ā', '਍', 'ഊ', '›', '†', ' ', '‍',
+                  '⸺', '✊', 'ଠ', '\U0001000a', '\U0001f60d', '\U0001f920']
+
+
+def low_byte_header_lists():
+    out = []
+    for i in range(0, len(LOW_BYTE_CHARS), 4):
+        cs = LOW_BYTE_CHARS[i:i + 4]
+        hs = []
+        for c in cs:
+            hs += [('X-%04X-lead' % ord(c), c + 'value'), ('X-%04X-trail' % ord(c), 'value' + c), ('X-%04X-in' % ord(c), 'le' + c + ' ' + c + 'ft' + c + c + 'right'), (c + 'Na' + c + 'me' + c, c)]
+        out.append(('low-byte ' + ' '.join('U+%04X' % ord(c) for c in cs), hs))
+    return out
+
+
+# quoting, escaping, comment signs, trailing separators, continuation and encoded-word shapes: what a new format feature would give meaning to
+SYNTAX_VALUES = ['"abc"', '"abc', 'abc"', '"', '""', '"a" "b"', "'abc'", '"a\\"b"', '\\', '\\\\', 'a\\b', 'a\\', '\\r\\n', 'a\\r\\nb', '\\n', '\\x0d\\x0a', '\\u000a', '%', '%%', '%0D%0A', 'a%0d%0ab', '%zz', '%2',
+                 'a%20b', '%25', 'a+b', '+', '&amp;', '&#13;&#10;', '=?utf-8?q?x?=', "utf-8''a%20b", '#', '# comment', 'v # comment', 'v;comment', ';', '; ', 'v;', 'v; ', '//', 'v // c', '/* c */', '<!-- c -->',
+                 '--', '-- c', 'v,', 'v, ', ',', ',v', 'a,b', 'a, b', 'a;b', 'v:', 'v: ', ':v', ': v', ' : ', 'v=', '=v', '=', 'k=v; k=v', 'k="v;v"', 'a\tb', 'a  b', '(c)', 'v (c)', '[v]', '{v}', '<v>', '$v', '${v}', '$(v)', '`v`',
+                 '@v', '!', '!important', '~', '^', '|', 'a|b', '*', '?', 'a?b=c', 'a&b', '0', '-0', '+0', '00', '0x10', '1e3', '1.0', ' 1', 'true', 'null', 'None', 'NaN', '\x00']
+SYNTAX_NAMES = ['#X', '# X', ';X', '//X', '--X', '-X', 'X-', '"X"', "'X'", 'X"', '\\X', 'X\\', '%58', 'X%', 'X+Y', 'X,Y', 'X;Y', 'X=Y', 'X Y', 'X\tY', '(X)', '[X]', 'X[]', 'X.Y', 'X/Y', 'X*', '*', '?', '!X', '@X', '$X', '0', '-', '_', '.', '..', '~']
+
+
+def syntax_header_lists():
+    out = []
+    for i in range(0, len(SYNTAX_VALUES), 12):
+        vs = SYNTAX_VALUES[i:i + 12]
+        out.append(('syntax values', [('X-%d' % (i + j), v) for j, v in enumerate(vs)]))
+        out.append(('syntax values same name', [('X', v) for v in vs]))
+    for i in range(0, len(SYNTAX_NAMES), 12):
+        out.append(('syntax names', [(n, 'v%d' % j) for j, n in enumerate(SYNTAX_NAMES[i:i + 12])]))
+    # a value (or name) that continues, repeats or is a prefix of its neighbour
+    out.append(('syntax neighbours', [('A', 'B: c'), ('B', 'c'), ('A', 'B'), ('AB', ''), ('A', ''), ('', 'A: '), ('A: ', ''[:0])][:6]))
+    out.append(('syntax prefix names', [('C', '1'), ('Co', '2'), ('Con', '3'), ('Content', '4'), ('Content-', '5'), ('Content-T', '6'), ('Content-Ty', '7'), ('Content-Typ', '8'), ('Content-Type-', '9'),
+                                        ('Content-L', '10'), ('Content-R', '11'), ('ontent-Type', '12'), ('-Type', '13'), ('Type', '14'), ('Length', '15'), ('Range', 'bytes 9-1/0')]))
+    return out
+
+
+def syntax_content_types():
+    """content types (single body and part) with quoting / escaping / parameters / comment shapes: trimmed, no boundary text"""
+    return ['"text/plain"', 'text/plain; charset="utf-8"', "text/plain; charset='utf-8'", 'text/plain;', 'text/plain; ', 'text/plain;;', 'text/plain; charset=', 'text/plain ;charset=utf-8', 'text/plain,text/html',
+            'text/plain, text/html', 'text/plain; a=1; a=2', 'text/plain; boundary="x y"', 'text/plain; boundary=', '"', '\\', 'text\\/plain', 'text%2Fplain', 'text/plain%0D%0A', 'text/plain\\r\\n', 'text/plain (plain text)',
+            'text/plain # c', '#', ';', ',', '=', 'text/plain;q=0.9', '*/*', 'text/*', 'text', '/', 'text/', '/plain', 'text/plain/extra', '=?utf-8?q?text/plain?=', 'a\tb', 'text/plain\x00', '\x00', 'x:', 'x: ', 'x :y']
+
+
+def low_byte_content_types():
+    return [c + 'text/plain' for c in LOW_BYTE_CHARS[:10]] + ['text/plain' + c for c in LOW_BYTE_CHARS[:10]] + ['te' + c + 'xt/' + c + c + 'plain' for c in LOW_BYTE_CHARS]
+
+
+def range_body_relations():
+    """(body length L, start, end, size): end - start against L (equal, one less: the inclusive convention, one more, far less, far more), size against L and against end"""
+    out = []
+    for L in (0, 1, 2, 7):
+        for s in (0, 1, 5):
+            for d in (L - 1, L, L + 1, 0, 3 * L + 2):
+                if d < 0: continue
+                e = s + d
+                for z in (e, e + 1, max(L, e), 2 * e + L + 1):
+                    t = (L, s, e, z)
+                    if s <= e <= z and t not in out: out.append(t)
+    # the complete length smaller than the body (a slice description that cannot be true, but a legal value): cutting the body at `size` or `end` loses bytes
+    out += [(10, 0, 3, 3), (10, 0, 0, 0), (10, 2, 3, 3), (10, 0, 9, 9), (10, 0, 9, 10), (10, 1, 10, 10), (10, 0, 11, 11), (10, 9, 9, 9), (3, 0, 2, 2), (3, 0, 2, 3), (3, 1, 3, 3)]
+    return out
+
+
+def history_plan():
+    """second use: the order in which a handful of responses are written and read again (indices into a list of responses: 0 long multipart, 1 short single, 2 short multipart,
+    3 the same status as 0 with another version, 4 the same head as 1 with a longer body, 5 one part less than 0; 'E' an input that fails)"""
+    return [0, 1, 0, 2, 1, 'E', 1, 'E', 0, 3, 0, 3, 4, 1, 4, 5, 0, 5, 2, 2, 'E', 'E', 2, 1, 1, 0]
